@@ -2,5 +2,6 @@ CONSTANTS
   MaxToks = 1
   Big = FALSE
   NRand = 0
+  Part = "all"
 SPECIFICATION Spec
 INVARIANTS ImplIsRefAll
